@@ -609,12 +609,13 @@ Proof.
   unfold InvS, pstep. intros H I. cbv zeta in H.
   destruct (chr =? 37); [fin H I|]. destruct (chr =? 36); [fin H I|]. destruct (chr =? 42); [fin H I|].
   destruct (chr =? 123).
-  { destruct (last_atom (p_res st)) as [a|] eqn:EL; [|discriminate].
+  { destruct (negb (Nat.ltb (p_barrier st) (length (p_res st)))); [discriminate|].
+    destruct (last_atom (p_res st)) as [a|] eqn:EL; [|discriminate].
     destruct a; try discriminate;
       (destruct (last_atom_inv _ _ EL) as [R ER]; injection H as <- _ _; cbn [p_res p_depth p_subs]; rewrite ER in I |- *;
        rewrite set_last_snoc, <- app_assoc; cbn [app]; apply Inv_open; [reflexivity|exact I]). }
   destruct (chr =? 125).
-  { destruct (p_depth st =? 0) eqn:E0; [discriminate|]. injection H as <- _ _. cbn [p_res p_depth p_subs].
+  { destruct (p_depth st <=? match p_subs st with sb :: _ => sb_depth sb | [] => 0 end) eqn:E0; [discriminate|]. injection H as <- _ _. cbn [p_res p_depth p_subs].
     apply (Inv_snoc _ (p_depth st)); [reflexivity|intros k; discriminate|cbn [eff]; lia|exact I]. }
   destruct (chr =? 40).
   { injection H as <- _ _. cbn [p_res p_depth p_subs]. apply Inv_lparen. exact I. }
@@ -699,13 +700,20 @@ Lemma parse_orig_unbalanced_refuted :
   cases_nested [Save 0; Case 3; Push 1; Jump1; Break 2; Nop; Skip 1; Byte 1] = false /\
   parse [40; 37; 123; 124; 63; 41; 48; 49] = Ok (inl (StackError, 3%nat)) /\
   parse [40; 37; 123; 63; 41] = Ok (inl (StackError, 4%nat)) /\
-  parse [37; 123; 40; 48; 49; 125; 124; 63; 41] = Ok (inl (StackError, 6%nat)).
+  parse [37; 123; 40; 48; 49; 125; 124; 63; 41] = Ok (inl (StackError, 5%nat)).      (* since F43: at the '}' already, not at the '|' *)
 Proof. vm_compute. repeat split; reflexivity. Qed.
 
-(* not vacuous: accepted patterns with braces inside alternatives, a '}' closing a brace that was opened before the
-   group and a '{' right behind a ')' (both accepted, both pass the check) *)
+(* not vacuous: accepted patterns with braces inside alternatives.  The two neighbouring shapes that were still accepted
+   when this was written - a '}' closing a brace that was opened before the group ("%{(01}%{|02)}03", F43) and a '{' right
+   behind a ')' ("(01|%){02}03", F42) - are rejected since the two repairs; the parser as it stood ([parse_orig42]) accepted
+   them and their outputs pass the check (the nesting check is about work, not about meaning). *)
 Example parse_nested_nonvacuous :
   parse [40; 37; 123; 48; 49; 125; 124; 63; 41; 48; 50] = Ok (inr [Save 0; Case 5; Push 1; Jump1; Byte 1; Pop; Break 2; Nop; Skip 1; Byte 2]) /\
-  (exists p, parse [37; 123; 40; 48; 49; 125; 37; 123; 124; 48; 50; 41; 125; 48; 51] = Ok (inr p) /\ cases_nested p = true) /\
-  (exists p, parse [40; 48; 49; 124; 37; 41; 123; 48; 50; 125; 48; 51] = Ok (inr p) /\ cases_nested p = true).
-Proof. split; [vm_compute; reflexivity|]. split; eexists; (split; [vm_compute; reflexivity|vm_compute; reflexivity]). Qed.
+  (exists p, parse_orig42 [37; 123; 40; 48; 49; 125; 37; 123; 124; 48; 50; 41; 125; 48; 51] = Ok (inr p) /\ cases_nested p = true) /\
+  (exists p, parse_orig42 [40; 48; 49; 124; 37; 41; 123; 48; 50; 125; 48; 51] = Ok (inr p) /\ cases_nested p = true) /\
+  parse [37; 123; 40; 48; 49; 125; 37; 123; 124; 48; 50; 41; 125; 48; 51] = Ok (inl (StackError, 5%nat)) /\
+  parse [40; 48; 49; 124; 37; 41; 123; 48; 50; 125; 48; 51] = Ok (inl (StackInvalid, 6%nat)).
+Proof.
+  split; [vm_compute; reflexivity|]. split; [eexists; (split; [vm_compute; reflexivity|vm_compute; reflexivity])|].
+  split; [eexists; (split; [vm_compute; reflexivity|vm_compute; reflexivity])|]. split; vm_compute; reflexivity.
+Qed.
